@@ -454,6 +454,25 @@ func (x *FnExec) cutLoop(fr *frame, n *node, li *loopInfo) {
 			n.st.heap[h] = ""
 		}
 	}
+	// ghost variables that have update hooks may change in the loop: havoc them (invariants constrain them)
+	if x.topSpec != nil {
+		seen := map[string]bool{}
+		for _, gu := range x.topSpec.Ghost {
+			if seen[gu.Var] || !loopHasCallMatching(li, gu.Callee) {
+				continue
+			}
+			seen[gu.Var] = true
+			if gv, ok := x.eng.specs.Ghosts[gu.Var]; ok {
+				ctx := &evalCtx{env: n.env, st: n.st, old: fr.oldState, block: n.b}
+				if fr.fn.Pkg != nil {
+					ctx.pkg = fr.fn.Pkg.Pkg
+				}
+				if cur, err := x.ghostGet(n.st, gv, ctx); err == nil {
+					n.st.heap["$ghost:"+gv.Name] = x.q.freshConst("hv_ghost_"+gv.Name, cur.Sort)
+				}
+			}
+		}
+	}
 	// 3. assume invariants
 	for _, c := range li.invs {
 		g, err := x.evalBool(fr, c.Expr, &evalCtx{env: n.env, st: n.st, old: fr.oldState, loop: li, block: n.b})
@@ -1571,4 +1590,41 @@ func (x *FnExec) loopWritesOnlyLoopAllocs(fr *frame, li *loopInfo, h string) boo
 		}
 	}
 	return true
+}
+
+// loopHasCallMatching: some call inside the loop (or inside a closure created in it) matches the callee pattern.
+func loopHasCallMatching(li *loopInfo, pattern string) bool {
+	var inFn func(f *ssa.Function, depth int) bool
+	scan := func(instrs []ssa.Instruction, depth int) bool {
+		for _, in := range instrs {
+			switch in := in.(type) {
+			case ssa.CallInstruction:
+				if guardMatchesCallee(pattern, calleeKey(in.Common())) {
+					return true
+				}
+				if mc, ok := in.Common().Value.(*ssa.MakeClosure); ok && depth < 3 && inFn(mc.Fn.(*ssa.Function), depth+1) {
+					return true
+				}
+			case *ssa.MakeClosure:
+				if depth < 3 && inFn(in.Fn.(*ssa.Function), depth+1) {
+					return true
+				}
+			}
+		}
+		return false
+	}
+	inFn = func(f *ssa.Function, depth int) bool {
+		for _, b := range f.Blocks {
+			if scan(b.Instrs, depth) {
+				return true
+			}
+		}
+		return false
+	}
+	for b := range li.blocks {
+		if scan(b.Instrs, 0) {
+			return true
+		}
+	}
+	return false
 }
